@@ -69,7 +69,7 @@ def node_observe(ctx, pairs, tag, timeout_ms=None, jobs=None):
 
     def one(s):
         outp = files[s].replace('-in.ndjson', '-out.ndjson')
-        r = subprocess.run(['node', '--expose-internals', '--stack-size=4000', RUNNER, files[s], outp], capture_output=True,
+        r = subprocess.run(['node', '--expose-internals', RUNNER, files[s], outp], capture_output=True,
                            text=True, env=env, timeout=3000)
         if r.returncode != 0:
             raise vlib.Infra('node runner failed (%d): %s' % (r.returncode, (r.stderr or r.stdout)[-2000:]))
@@ -82,27 +82,19 @@ def node_observe(ctx, pairs, tag, timeout_ms=None, jobs=None):
     return res
 
 
-class Batch:
-    """All programs of one generator family, minified, executed and validated together."""
-
-    def __init__(self, ctx, exe, name):
-        self.ctx, self.exe, self.name = ctx, exe, name
-        self.sources = []          # program texts
-        self.meta = []             # generator tag per source
-        self.seen = set()
-
-    def add(self, src, tag=''):
-        if src in self.seen:
-            return
-        self.seen.add(src)
-        self.sources.append(src)
-        self.meta.append(tag)
-
-
 def run_sources(ctx, exe, sources, tag, nenv=3, probe=1, ast=False, timeout_ms=None, cfgs=None, stats=None):
-    """minify + execute + TLC-validate.  Returns (pairs, obs_lines, rejects[list of (pair_index, env, why)])."""
+    """minify + execute + TLC-validate one list of programs with uniform parameters (see run_batch)."""
+    items = [dict(src=s, fam=tag, nenv=nenv, probe=probe, ast=ast) for s in sources]
+    return run_batch(ctx, exe, items, tag, timeout_ms=timeout_ms, cfgs=cfgs, stats=stats)
+
+
+def run_batch(ctx, exe, items, tag, timeout_ms=None, cfgs=None, stats=None):
+    """items: list of dict(src, fam, nenv, probe, ast).  All programs are minified by one driver process under every
+    configuration, every DISTINCT (input, output) pair is executed by the node runner shards, and TLC validates all
+    observations (JsObs).  Returns (pairs, obs_lines, rejects[(pair_id, env, why)], ast_lines)."""
     vlib._speccopy(ctx)      # (copy the specs once, before TLC shards start in parallel threads)
     t0 = time.time()
+    sources = [it['src'] for it in items]
     results = minify_all(ctx, exe, sources, tag, cfgs)
     t1 = time.time()
     pairs = []
@@ -114,9 +106,13 @@ def run_sources(ctx, exe, sources, tag, nenv=3, probe=1, ast=False, timeout_ms=N
         if r['err']:
             st['minifier_rejects_input'] = st.get('minifier_rejects_input', 0) + 1
             continue
-        pairs.append(dict(id=len(pairs), src_id=r['id'], cfgs=r['cfgs'], out=r['out'], seed=ctx.seed, nenv=nenv, probe=probe,
-                          ast=1 if ast else 0, **{'in': sources[r['id']]}))
-    obs = node_observe(ctx, [dict((k, p[k]) for k in ('id', 'in', 'out', 'seed', 'nenv', 'probe', 'ast')) for p in pairs], tag,
+        it = items[r['id']]
+        pairs.append(dict(id=len(pairs), src_id=r['id'], cfgs=r['cfgs'], out=r['out'], seed=ctx.seed, nenv=it['nenv'], probe=it['probe'],
+                          ast=1 if it.get('ast') else 0, fam=it['fam'], nobig=1 if gen.needs_nobig(it['src']) else 0, **{'in': it['src']}))
+    for p in pairs:
+        p['maxvary'] = 2 if ctx.quick() else 3      # free names whose binding varies over the spec's environment space
+        p['nspec'] = 2 if ctx.quick() else 4
+    obs = node_observe(ctx, [dict((k, p[k]) for k in ('id', 'in', 'out', 'seed', 'nenv', 'probe', 'ast', 'nobig', 'maxvary', 'nspec')) for p in pairs], tag,
                        timeout_ms=timeout_ms)
     lines, index = [], []
     astlines = []
@@ -132,7 +128,7 @@ def run_sources(ctx, exe, sources, tag, nenv=3, probe=1, ast=False, timeout_ms=N
         index.append((o['id'], o['env']))
     st['engine_observations'] = st.get('engine_observations', 0) + len(lines)
     t2 = time.time()
-    accepted, rejects = vlib.tlc_trace(ctx, 'JsObs', 'JsObs.cfg', lines, min_per_shard=400)
+    accepted, rejects = vlib.tlc_trace(ctx, 'JsObs', 'JsObs.cfg', lines, min_per_shard=600)
     if os.environ.get('VERIF_DEBUG'):
         vlib.log('  [%s] minify %.1fs  node %.1fs  tlc %.1fs  (%d programs, %d pairs, %d lines)' % (tag, t1 - t0, t2 - t1, time.time() - t2,
                                                                                                len(sources), len(pairs), len(lines)))
@@ -166,7 +162,7 @@ def first_difference(line):
 def confirm_alone(ctx, exe, src, cfg, nenv, probe, timeout_ms=None):
     """Re-run ONE program with ONE configuration in fresh processes and re-validate with TLC."""
     pairs, lines, rej, _ = run_sources(ctx, exe, [src], 'alone-%d' % confirm_alone.n, nenv=nenv, probe=probe, cfgs=[cfg],
-                                       timeout_ms=timeout_ms, stats={})
+                                       timeout_ms=timeout_ms or 400, stats={})
     confirm_alone.n += 1
     if not rej:
         return None
@@ -229,85 +225,139 @@ def handle_rejects(ctx, exe, pairs, rej, nenv, probe, shrink=False, cap=30, time
 # ---------------------------------------------------------------------------------------------------
 def run(ctx):
     quick = ctx.quick()
-    exe = vlib.build_harness(ctx, 'c01')
     stats = {}
     samples = []
     nontrivial = set()
-    evaluations = 0
     total_rej = total_repro = 0
+    t00 = time.time()
 
-    # ---- (MC) design level: rewrite laws and generator automaton ------------------------------------
-    specinfo = gen.model_check(ctx)
+    # ---- build + (MC) design level: rewrite laws, generator automata (run side by side) ---------------
+    with ThreadPoolExecutor(max_workers=2) as ex:
+        fb = ex.submit(vlib.build_harness, ctx, 'c01')
+        fm = ex.submit(gen.model_check, ctx)
+        exe = fb.result()
+        specinfo = fm.result()
+    for r in specinfo.pop('mc_results'):
+        ctx.add_mc(r)
+    vlib.log('MC stage %.1fs' % (time.time() - t00))
 
-    # ---- (GEN/RUN/TV) fragment programs from TLC: spec recorder + engine recorder -------------------
+    # ---- (GEN) all generator families ---------------------------------------------------------------
+    items = []
     frag = gen.fragment_programs(ctx, specinfo)
-    fr = gen.run_fragment(ctx, exe, frag, run_sources, stats)
-    evaluations += fr['evaluations']
-    total_rej += fr['rejected']
-    nontrivial |= fr['nontrivial']
-    samples += fr['samples']
+    fams = [dict(name='fragment', sources=frag, nenv=3, probe=1, ast=True)] + \
+        (gen.families(ctx, exe) if os.environ.get('C01_ONLY', '') != 'fragment' else [])
+    nexcl = 0
+    batched = {}
+    for fam in fams:
+        n0 = len(items)
+        for s in fam['sources']:
+            if gen.excluded(s):
+                nexcl += 1
+                continue
+            items.append(dict(src=s, fam=fam['name'], nenv=fam.get('nenv', 3), probe=fam.get('probe', 1), ast=fam.get('ast', False)))
+        batched[fam['name']] = fam.get('batched', False)
+        stats['family_' + fam['name']] = dict(programs=len(items) - n0)
+    stats['excluded_known_construct'] = nexcl
+    # pinned witnesses of known findings ride along (their rejection is expected and reported as KNOWN-FINDING)
+    known = vlib.known_cases('C01')
+    vlib.log('generated %d programs (+%d pinned witnesses), %d excluded (known constructs)  %.1fs' % (len(items), len(known), nexcl,
+                                                                                                   time.time() - t00))
+
+    # ---- (RUN) real minifier under all configurations, V8 observations; (TV) TLC ----------------------
+    t1 = time.time()
+    pairs, lines, rej, astlines = run_batch(ctx, exe, items, 'main', stats=stats)
+    vlib.log('engine recorder %.1fs' % (time.time() - t1))
+    t2 = time.time()
+    fr = gen.validate_asts(ctx, pairs, astlines, stats)
+    vlib.log('spec recorder %.1fs' % (time.time() - t2))
+    evaluations = len(lines) + fr['evaluations']
+
+    observed = set(l['id'] for l in lines)
+    byfam = {}
+    for p in pairs:
+        d = byfam.setdefault(p['fam'], dict(pairs=0, observed=0))
+        d['pairs'] += 1
+        if p['id'] in observed:
+            d['observed'] += 1
+            if p['out'] != p['in']:
+                nontrivial.add((p['in'], p['out']))
+    for k, d in byfam.items():
+        stats['family_' + k].update(d)
+    for fam in fams:
+        ps = [p for p in pairs if p['fam'] == fam['name'] and p['id'] in observed and p['out'] != p['in']]
+        for p in ps[:: max(1, len(ps) // 2)][:2]:
+            samples.append({'family': fam['name'], 'in': p['in'][:200], 'out': p['out'][:200], 'cfgs': p['cfgs'][:3]})
+
+    # ---- rejections: every rejected pair is re-run alone (fresh processes) before it counts -------------
+    t3 = time.time()
+    rejp = {}
+    for pid, env, why in rej:
+        rejp.setdefault(pid, []).append(why)
+    for pid in sorted(rejp)[:40]:
+        p = pairs[pid]
+        cfg, src = p['cfgs'][0], p['in']
+        c = confirm_alone(ctx, exe, src, cfg, p['nenv'], p['probe'])
+        if not c:
+            raise vlib.Infra('rejection did not reproduce in isolation: %r cfg=%s (%s)' % (src[:200], cfg, rejp[pid]))
+        if batched.get(p['fam']):
+            s2 = shrink_statements(ctx, exe, src, cfg, p['nenv'], p['probe'])
+            if s2 != src:
+                c2 = confirm_alone(ctx, exe, s2, cfg, p['nenv'], p['probe'])
+                if c2:
+                    src, c = s2, c2
+        total_repro += 1
+        ctx.report(ident(src, cfg), 'js.Minifier{KeepVarNames:%s,Version:%d} %r -> %r : %s (%s; env %d)' % (
+            bool(cfg[0]), cfg[1], src[:400], c['pair']['out'][:400], '/'.join(sorted(set(c['why']))), c['detail'][:300], c['env']),
+            dict(src=src, cfg=cfg, out=c['pair']['out'], why=c['why'], detail=c['detail']))
+    total_rej += len(rejp)
     for (src, cfg, why, detail, out) in fr['violations']:
-        c = confirm_alone(ctx, exe, src, cfg, 3, 1)
+        if any(p['in'] == src and p['id'] in rejp for p in pairs):
+            continue                                   # already reported through the engine recorder
         c_spec = gen.confirm_fragment_alone(ctx, exe, src, cfg, run_sources)
-        if not c and not c_spec:
+        if not c_spec:
             raise vlib.Infra('fragment rejection did not reproduce in isolation: %r %s' % (src, cfg))
+        total_rej += 1
         total_repro += 1
         ctx.report(ident(src, cfg), 'js.Minifier{KeepVarNames:%s,Version:%d} %r -> %r : %s (%s)' % (
-            bool(cfg[0]), cfg[1], src, out, why, detail), dict(src=src, cfg=cfg, out=out, why=why))
+            bool(cfg[0]), cfg[1], src, out, why, c_spec), dict(src=src, cfg=cfg, out=out, why=why))
 
-    # ---- engine recorder over the other generator families ------------------------------------------
-    families = gen.families(ctx, exe) if os.environ.get('C01_ONLY', '') != 'fragment' else []
-    for fam in families:
-        t0 = time.time()
-        srcs = fam['sources']
-        excl = [s for s in srcs if gen.excluded(s)]
-        srcs = [s for s in srcs if not gen.excluded(s)]
-        stats['excluded_known_construct'] = stats.get('excluded_known_construct', 0) + len(excl)
-        fst = {}
-        pairs, lines, rej, _ = run_sources(ctx, exe, srcs, fam['name'], nenv=fam.get('nenv', 3), probe=fam.get('probe', 1),
-                                           timeout_ms=fam.get('timeout_ms'), stats=fst)
-        evaluations += len(lines)
-        for k, v in fst.items():
-            stats[k] = stats.get(k, 0) + v
-        observed = set(l['id'] for l in lines)
-        for p in pairs:
-            if p['id'] in observed and p['out'] != p['in']:
-                nontrivial.add((p['in'], p['out']))
-        for p in pairs[:: max(1, len(pairs) // 2)][:2]:
-            samples.append({'family': fam['name'], 'in': p['in'][:200], 'out': p['out'][:200], 'cfgs': p['cfgs'][:3]})
-        r, k = handle_rejects(ctx, exe, pairs, rej, fam.get('nenv', 3), fam.get('probe', 1), shrink=fam.get('batched', False),
-                              timeout_ms=fam.get('timeout_ms'))
-        total_rej += r
-        total_repro += k
-        stats['family_%s' % fam['name']] = dict(programs=len(srcs), pairs=len(pairs), observations=len(lines), rejected_pairs=r,
-                                                wall_s=round(time.time() - t0, 1))
-        vlib.log('family %-12s programs=%d pairs=%d obs=%d rejected=%d  %.1fs' % (fam['name'], len(srcs), len(pairs), len(lines), r,
-                                                                                 time.time() - t0))
-
-    # ---- pinned witnesses of known findings: replayed on every run -----------------------------------
-    for w in vlib.known_cases('C01'):
-        c = confirm_alone(ctx, exe, w['src'], [w['keep'], w['version']], w.get('nenv', 4), 1)
-        if c:
-            ctx.report(ident(w['src'], [w['keep'], w['version']]),
-                       'js.Minifier{KeepVarNames:%s,Version:%d} %r -> %r : %s (%s)' % (bool(w['keep']), w['version'], w['src'],
-                                                                                    c['pair']['out'], '/'.join(sorted(set(c['why']))),
-                                                                                    c['detail'][:200]))
-        else:
-            stats['known_witness_no_longer_fails'] = stats.get('known_witness_no_longer_fails', 0) + 1
-            vlib.log('note: pinned witness no longer fails:', w['src'])
+    # ---- pinned witnesses of known findings: one batch, each its own program/configuration ---------------
+    if known:
+        kst = {}
+        byid = {}
+        for w in known:
+            byid.setdefault((w['keep'], w['version']), []).append(w)
+        for (keep, ver), ws in sorted(byid.items()):
+            kitems = [dict(src=w['src'], fam='known', nenv=w.get('nenv', 4), probe=1, ast=False) for w in ws]
+            kp, kl, kr, _ = run_batch(ctx, exe, kitems, 'known-%d-%d' % (keep, ver), timeout_ms=400, cfgs=[[keep, ver]], stats=kst)
+            L = dict(((l['id'], l['env']), l) for l in kl)
+            failing = {}
+            for pid, env, why in kr:
+                failing.setdefault(kp[pid]['src_id'], (kp[pid], env, why))
+            for i, w in enumerate(ws):
+                if i in failing:
+                    p, env, why = failing[i]
+                    ctx.report(ident(w['src'], [keep, ver]), 'js.Minifier{KeepVarNames:%s,Version:%d} %r -> %r : %s (%s)' % (
+                        bool(keep), ver, w['src'], p['out'], why, first_difference(L[(p['id'], env)])[:200]))
+                else:
+                    stats['known_witness_no_longer_fails'] = stats.get('known_witness_no_longer_fails', 0) + 1
+                    vlib.log('note: pinned witness no longer fails:', w.get('id'), w['src'])
+    vlib.log('rejections + known %.1fs' % (time.time() - t3))
 
     ctx.coverage.update(dict(
         traces_validated_against_impl=stats.get('engine_accepted', 0) + fr['spec_accepted'],
         evaluations=evaluations,
         distinct_nontrivial=len(nontrivial),
-        rule='case = (program text, minifier configuration group with identical output, environment); programs: '
-             'TLC-generated fragment programs (JsGen dump + simulate), precedence matrix (ECMA-262 operator table, every ordered '
-             'operator pair, both groupings), literal matrix (string escapes x quotes x following char; numeric literal forms incl. '
-             'NumGen lexemes; regular expression escapes), ASI/adjacency programs, inputs of js/js_test.go (sloppy and "use strict") '
-             'and tests/js/corpus; non-trivial = DISTINCT (input text, output text) pairs with output != input whose execution was '
-             'observed in the domain (input valid, terminating, deterministic).  Generator exclusions (known findings, pinned '
-             'witnesses replayed instead): ' + '; '.join(gen.EXCLUSION_NOTES),
-        samples=samples[:12],
+        rule='case = (program text, group of minifier configurations {KeepVarNames}x{Version 0,2015..2022} with identical output, '
+             'environment); programs: TLC-generated fragment programs (JsGen: exhaustive dumps of the flow/expression/nullish production '
+             'sets + TLC -simulate walks over all productions), precedence matrix (ECMA-262 operator table, every ordered operator pair, '
+             'both groupings, 7 operand preambles), literal matrix (string escapes x quotes x following char x context; templates; numeric '
+             'literal forms incl. NumGen lexemes in 60 syntactic contexts; regular expression escapes), ASI/adjacency programs, structural '
+             'forms, inputs of js/js_test.go and util_test.go (as is, "use strict", as function body, as argument), tests/js/corpus (files '
+             'and every function of them); non-trivial = DISTINCT (input text, output text) pairs with output != input whose execution '
+             'was observed inside the domain (input valid, terminating, deterministic).  Generator exclusions (genuine defects on the '
+             'unchanged tree; pinned witnesses in known/C01.ndjson are replayed instead): ' + '; '.join(gen.EXCLUSION_NOTES),
+        samples=samples[:14],
         rejections=total_rej,
         rejections_reproduced=total_repro,
         stats=stats,
@@ -315,12 +365,15 @@ def run(ctx):
     ))
     ctx.assumptions += [
         'V8 (node v20 vm contexts) is the reference semantics outside the TLA+ fragment; acorn 8.16 (bundled with node) is the '
-        'independent parser; TLC evaluates ObsEq on recorded observations and JsCore.Run on ASTs',
-        'observation = host calls (incl. property get/set/valueOf on host objects, callbacks invoked by hosts), final globals, '
-        'completion, and the behaviour of global functions when a later script calls them (probes); function source text, '
-        '.name/.length, regex source and engine message wording are not serialised',
+        'independent parser; TLC evaluates ObsEq on recorded observations (JsObs) and JsCore.Run on ASTs (C01Ast)',
+        'observation = host calls (incl. property get/set/valueOf on host objects, callbacks invoked by hosts), final globals (global '
+        'object properties and global lexical bindings), completion, and the behaviour of global functions when a later script '
+        'calls them (probes); function source text, .name/.length, regex source and engine message wording are not serialised',
         'programs whose input is rejected by V8 as a script, times out, is nondeterministic, throws a TDZ ReferenceError, mentions '
-        'eval/Function, or has Annex-B block function clashes are outside the domain and counted as skipped',
+        'eval/Function, or has Annex-B block function clashes are outside the domain and counted as skipped; output bytes that are '
+        'not valid UTF-8 are decoded with U+FFFD like a browser would',
+        'JsCore.Run is cross-checked against V8 on every fragment program under several environments of the spec environment '
+        'space; a disagreement is exit 2 (specification bug), never a verdict',
     ]
 
 
